@@ -9,6 +9,7 @@ from typing import Any, NamedTuple, cast
 
 from marko import Markdown, Renderer, block, inline
 from marko.block import HTMLBlock
+from marko.element import Element
 from marko.ext import footnote
 from marko.ext.gfm import GFM
 from marko.ext.gfm import elements as gfm_elements
@@ -340,12 +341,30 @@ class MarkdownNormalizer(Renderer):
         self._in_heading: bool = False  # Track if we're rendering a heading
         self._list_spacing: ListSpacing = list_spacing
         self._current_list_tight: bool = False  # Whether current list should render tight
+        self._after_table: bool = False  # The previous block was a table
 
     @override
     def __enter__(self) -> MarkdownNormalizer:
         self._prefix = ""
         self._second_prefix = ""
+        self._after_table = False
         return super().__enter__()
+
+    @override
+    def render(self, element: Element) -> Any:
+        after_table = self._after_table
+        prefix = self._prefix
+        if isinstance(element, block.BlockElement):
+            self._after_table = False
+        result = super().render(element)
+        if isinstance(element, gfm_elements.Table):
+            self._after_table = True
+        elif after_table and isinstance(element, block.Paragraph):
+            # A paragraph can follow a table directly (when its line is indented), but once
+            # it is re-flowed its first line would be read as another row of the table.
+            blank_line = f"{prefix}\n" if prefix.strip() else "\n"  # As render_blank_line() does.
+            result = blank_line + result
+        return result
 
     @contextmanager
     def container(self, prefix: str, second_prefix: str = "") -> Generator[None, None, None]:
